@@ -456,9 +456,168 @@ fn run_igs(bytes: &[u8], with_ops: bool) -> StreamResult {
     StreamResult { fail, ops, ran, outcomes }
 }
 
+/// one RIP stream against the canvas model (`Drv/Ripc.lean`): lexer classes and outcomes as for `rip lex`, and at the
+/// end the canvas hash, `get_picture_data()` (always called: length and hash of the RGBA bytes) and the lexer digest
+fn run_ripc(bytes: &[u8], with_ops: bool) -> StreamResult {
+    let mut s = RipSession::new();
+    let mut classes: Vec<String> = Vec::with_capacity(bytes.len());
+    let mut outcomes = String::with_capacity(bytes.len());
+    let mut fail = None;
+    let mut ran = 0usize;
+    let mut cnt0 = 0;
+    for (j, b) in bytes.iter().enumerate() {
+        progress(j);
+        classes.push(rip_fb_class(&s.parser));
+        let t0 = Instant::now();
+        let r = s.feed(*b as char);
+        let dt = t0.elapsed().as_millis();
+        outcomes.push(outcome_letter(&r));
+        if let Err(loc) = &r {
+            fail = Some((format!("panic:{}", panic_site(loc)), format!("print_char panicked at {} on character {} of the stream", loc, j), j));
+            break;
+        }
+        if dt > SLOW_CHAR_MS {
+            fail = Some((format!("slow:rip:{}", rip_cmd_at(bytes, j)), format!("character {} took {} ms", j, dt), j));
+            break;
+        }
+        let c = s.parser.verif_digest().2;
+        if c != cnt0 {
+            ran += 1;
+            cnt0 = c;
+        }
+    }
+    let mut pic = String::from("none 0");
+    if fail.is_none() {
+        let p = &mut s.parser;
+        match catch(AssertUnwindSafe(|| p.get_picture_data())) {
+            Err(loc) => fail = Some((format!("panic:{}", panic_site(&loc)), format!("get_picture_data panicked at {}", loc), bytes.len())),
+            Ok(Some((size, px))) => {
+                if size.width != 640 || size.height != 350 || px.len() != (size.width * size.height * 4) as usize {
+                    fail = Some(("picture:rip".into(), format!("picture {}x{} has {} bytes, not {}", size.width, size.height, px.len(), size.width * size.height * 4), bytes.len()));
+                }
+                let h = px.iter().fold(14695981039346656037u64, |h, x| (h ^ (*x as u64)).wrapping_mul(1099511628211));
+                pic = format!("{} {}", px.len(), h);
+            }
+            Ok(None) => {}
+        }
+    }
+    if fail.is_none() {
+        // hypotheses `DrawState` / `ParamsOk` of theorem rip_command_total, checked on the real state after every stream
+        let (vp, _, _, lpat) = s.parser.bgi.verif_state();
+        let okvp = (0..=1295).contains(&vp.0) && (0..=1295).contains(&vp.1) && (-1295..=1295).contains(&vp.2) && (-1295..=1295).contains(&vp.3);
+        let w = s.parser.bgi.window;
+        if !okvp || s.parser.bgi.get_fill_pattern().len() != 8 || lpat.len() != 16 || (s.parser.bgi.get_fill_style() as usize) >= 13 || s.parser.bgi.screen.len() != 640 * 350 || w.width != 640 || w.height != 350 {
+            fail = Some(("assumption:DrawState".into(), format!("viewport {:?}, user pattern rows {}, screen {}", vp, s.parser.bgi.get_fill_pattern().len(), s.parser.bgi.screen.len()), bytes.len()));
+        }
+    }
+    let req = |n: usize| format!("ripc run {} {} {}", hex(&bytes[..n]), if n == 0 { "-".into() } else { classes[..n].join(",") }, if n == 0 { "-" } else { &outcomes[..n] });
+    let ops = if !with_ops {
+        None
+    } else if let Some((k, _, j)) = &fail {
+        // a panic of the real code inside a command: the model has to show the same explicit outcome at that character
+        if k.starts_with("panic:") && *j < bytes.len() {
+            Some((req(*j + 1), format!("panic@{}", j)))
+        } else {
+            None
+        }
+    } else {
+        let (_, txt) = rip_digest(&s.parser, 0);
+        Some((req(bytes.len()), format!("{} {} {} ok", canvas_hash(&s.parser.bgi), pic, if bytes.is_empty() { "-".to_string() } else { txt })))
+    };
+    StreamResult { fail, ops, ran, outcomes }
+}
+
+/// one IGS stream against the canvas model (`Drv/Igsx.lean`): outcomes per character, loops drained as in `run_igs`,
+/// and at the end `get_picture_data()` (always called: resolution, length and hash of the RGBA bytes) and the lexer digest
+fn run_igsx(bytes: &[u8], with_ops: bool) -> StreamResult {
+    let mut s = IgsSession::new();
+    let mut outcomes = String::with_capacity(bytes.len());
+    let mut fail = None;
+    let mut ran = 0usize;
+    'outer: for (j, b) in bytes.iter().enumerate() {
+        progress(j);
+        let t0 = Instant::now();
+        let r = s.feed(*b as char);
+        let dt = t0.elapsed().as_millis();
+        let o = outcome_letter(&r);
+        outcomes.push(o);
+        if let Err(loc) = &r {
+            fail = Some((format!("panic:{}", panic_site(loc)), format!("print_char panicked at {} on character {} of the stream", loc, j), j));
+            break;
+        }
+        if dt > SLOW_CHAR_MS {
+            fail = Some((format!("slow:igs:{}", igs_cmd_at(bytes, j)), format!("character {} took {} ms", j, dt), j));
+            break;
+        }
+        if o != 'n' {
+            ran += 1;
+        }
+        for _ in 0..IGS_DRAIN {
+            let before = s.parser.verif_digest().7;
+            if before.is_none() {
+                break;
+            }
+            let t0 = Instant::now();
+            let r = s.next_action();
+            let dt = t0.elapsed().as_millis();
+            if let Err(loc) = r {
+                fail = Some((format!("panic:{}", panic_site(&loc)), format!("get_next_action panicked at {} after character {}", loc, j), j));
+                break 'outer;
+            }
+            if dt > SLOW_CHAR_MS {
+                fail = Some((format!("slow:igs:loop:{}", igs_cmd_at(bytes, j)), format!("loop step after character {} took {} ms", j, dt), j));
+                break 'outer;
+            }
+            let after = s.parser.verif_digest().7;
+            if let (Some(b4), Some(af)) = (before, after) {
+                if b4.0 == af.0 {
+                    fail = Some(("stall:igs::Loop::next_step".into(), format!("loop from={} to={} step={} makes no progress (i stays {}): it never terminates", af.1, af.2, af.3, af.0), j));
+                    break 'outer;
+                }
+            }
+        }
+    }
+    let mut pic = String::new();
+    if fail.is_none() {
+        let p = &mut s.parser;
+        match catch(AssertUnwindSafe(|| p.get_picture_data())) {
+            Err(loc) => fail = Some((format!("panic:{}", panic_site(&loc)), format!("get_picture_data panicked at {}", loc), bytes.len())),
+            Ok(Some((size, px))) => {
+                let okres = [(320, 200), (640, 200), (640, 400)].contains(&(size.width, size.height));
+                if !okres || px.len() != (size.width * size.height * 4) as usize {
+                    fail = Some(("picture:igs".into(), format!("picture {}x{} has {} bytes, not {}", size.width, size.height, px.len(), size.width * size.height * 4), bytes.len()));
+                }
+                let h = px.iter().fold(14695981039346656037u64, |h, x| (h ^ (*x as u64)).wrapping_mul(1099511628211));
+                pic = format!("{}x{} {} {}", size.width, size.height, px.len(), h);
+            }
+            Ok(None) => fail = Some(("picture:igs".into(), "no picture".into(), bytes.len())),
+        }
+    }
+    let req = |n: usize| format!("igsx run {} {}", hex(&bytes[..n]), if n == 0 { "-".to_string() } else { let mut o = outcomes.clone(); while o.len() < n { o.push('p'); } o[..n].to_string() });
+    let ops = if !with_ops {
+        None
+    } else if let Some((k, _, j)) = &fail {
+        if k.starts_with("panic:") && *j < bytes.len() {
+            Some((req(*j + 1), format!("panic@{}", j)))
+        } else if k.starts_with("panic:") {
+            Some((req(bytes.len()), "picpanic".to_string()))
+        } else {
+            None
+        }
+    } else {
+        let (_, txt) = igs_digest(&s.parser, 0);
+        Some((req(bytes.len()), format!("{} {} ok", pic, if bytes.is_empty() { "-".to_string() } else { txt })))
+    };
+    StreamResult { fail, ops, ran, outcomes }
+}
+
 fn run_stream(kind: &str, bytes: &[u8], with_ops: bool) -> StreamResult {
     if kind == "rip" {
         run_rip(bytes, with_ops)
+    } else if kind == "ripc" {
+        run_ripc(bytes, with_ops)
+    } else if kind == "igsx" {
+        run_igsx(bytes, with_ops)
     } else {
         run_igs(bytes, with_ops)
     }
@@ -603,6 +762,8 @@ fn case_bgi(payload: &str, outs: &mut Vec<Out>) {
                 "pal" => bb.set_palette(&a),
                 "pc" => bb.set_palette_color(g(0), g(1) as u8),
                 "gd" => bb.graph_defaults(),
+                "ff" => bb.flood_fill(g(0), g(1), g(2) as u8),
+                "rc" => bb.rectangle(g(0), g(1), g(2), g(3)),
                 _ => {}
             }
             None
@@ -654,6 +815,9 @@ fn case_bgi(payload: &str, outs: &mut Vec<Out>) {
         outs.push(Out::Count("bgi:api-panic-predicted".into()));
     }
     outs.push(Out::Count(format!("bgi:ops{}", match payload.split(';').count() { 0..=4 => "<=4", 5..=12 => "5..12", _ => ">12" })));
+    if payload.contains("ff,") {
+        outs.push(Out::Count(format!("bgi:flood-fill:{}", if payload.contains("vp,") { "own-viewport" } else { "default-viewport" })));
+    }
     let line = obs.join(" | ");
     outs.push(Out::Nt(fnv(line.bytes().map(|x| x as u64))));
     outs.push(Out::Case(format!("bgi run {}", payload), line));
@@ -665,7 +829,7 @@ fn case_bgi(payload: &str, outs: &mut Vec<Out>) {
 fn process(input: &str, outs: &mut Vec<Out>) {
     let (kind, payload) = input.split_once(':').unwrap_or(("rip", input));
     match kind {
-        "rip" | "igs" => case_stream(kind, payload, outs),
+        "rip" | "igs" | "ripc" | "igsx" => case_stream(kind, payload, outs),
         "bgi" => case_bgi(payload, outs),
         _ => {}
     }
@@ -730,7 +894,7 @@ fn drive(run: &mut Run, cases: &[String], dir: &std::path::Path) {
                 } else {
                     let (a, b) = split_input(payload);
                     let bytes = [a, b].concat();
-                    let cmd = if kind == "rip" { rip_cmd_at(&bytes, j) } else { igs_cmd_at(&bytes, j) };
+                    let cmd = if kind == "rip" || kind == "ripc" { rip_cmd_at(&bytes, j) } else { igs_cmd_at(&bytes, j) };
                     format!("{}:{}:{}", how, kind, cmd)
                 };
                 run.oracle_fail(&key, &cases[i], &format!("worker {} on this case (character {}): no answer within {} s or the process died", how, j, hang_secs()));
@@ -1342,6 +1506,450 @@ fn bgi_ops(rng: &mut Rng) -> String {
     ops.join(";")
 }
 
+/// flood-fill scenes on the BGI API: a viewport (default, moved, larger than the window, tiny, empty), obstacles drawn
+/// with lines / rectangles / bars / pixels, then one to three fills seeded on the edges and corners of the viewport
+/// and of the window, inside obstacles, and on spans an earlier fill has already coloured
+fn bgi_fill_scene(rng: &mut Rng) -> String {
+    let mut ops: Vec<String> = Vec::new();
+    let (x0, y0, x1, y1): (i64, i64, i64, i64) = match rng.below(10) {
+        0..=2 => (0, 0, 640, 350),
+        3 => (rng.range(0, 300), rng.range(0, 150), rng.range(300, 700), rng.range(150, 400)),
+        4 => (0, 0, 1295, 1295),
+        5 => (rng.range(0, 640), rng.range(0, 350), rng.range(0, 1295), rng.range(0, 1295)),
+        6 => {
+            let (cx, cy) = *rng.pick(&[(0i64, 0i64), (630, 0), (0, 340), (630, 340), (300, 170)]);
+            (cx, cy, cx + rng.range(1, 12), cy + rng.range(1, 12))
+        }
+        7 => (600, 300, 700, 400),
+        8 => (rng.range(0, 640), rng.range(0, 350), rng.range(0, 640), rng.range(0, 350)),
+        _ => (rng.range(0, 40), rng.range(0, 40), 640, 350),
+    };
+    if (x0, y0, x1, y1) != (0, 0, 640, 350) || rng.chance(1, 4) {
+        ops.push(format!("vp,{},{},{},{}", x0, y0, x1, y1));
+    }
+    let border = rng.range(1, 15);
+    ops.push(format!("co,{}", border));
+    if rng.chance(1, 5) {
+        ops.push(format!("lt,{}", *rng.pick(&[1i64, 3])));
+    }
+    // obstacles (drawn inside the window; the viewport clips them)
+    let (lx, ly, hx, hy) = (x0.min(639), y0.min(349), x1.min(660), y1.min(370));
+    let px = |rng: &mut Rng| if hx > lx { rng.range(lx, hx) } else { rng.range(0, 640) };
+    let py = |rng: &mut Rng| if hy > ly { rng.range(ly, hy) } else { rng.range(0, 350) };
+    for _ in 0..rng.range(0, 6) {
+        let (a, b, c, d) = (px(rng), py(rng), px(rng), py(rng));
+        match rng.below(6) {
+            0 | 1 => ops.push(format!("rc,{},{},{},{}", a, b, c, d)),
+            2 | 3 => ops.push(format!("ln,{},{},{},{}", a, b, c, d)),
+            4 => {
+                ops.push(format!("fc,{}", border));
+                ops.push(format!("bar,{},{},{},{}", a.min(c), b.min(d), a.max(c), b.max(d)));
+            }
+            _ => {
+                for _ in 0..rng.range(1, 5) {
+                    ops.push(format!("pp,{},{},{}", px(rng), py(rng), border));
+                }
+            }
+        }
+    }
+    // a one-pixel column / row of border pixels at the window edges triggers find_line's "weird condition"
+    if rng.chance(1, 4) {
+        let y = py(rng);
+        ops.push(format!("pp,1,{},{}", y, border));
+        ops.push(format!("pp,638,{},{}", y, border));
+    }
+    let nfill = rng.range(1, 3);
+    for k in 0..nfill {
+        let fc = if rng.chance(1, 6) { 0 } else { rng.range(1, 15) };
+        ops.push(format!("fc,{}", fc));
+        if rng.chance(1, 3) {
+            ops.push(format!("fs,{}", rng.range(0, 12)));
+            ops.push(format!("bk,{}", rng.range(0, 15)));
+        } else if k > 0 || rng.chance(1, 2) {
+            ops.push("fs,1".to_string());
+        }
+        let (sx, sy) = match rng.below(8) {
+            0 => (*rng.pick(&[x0 - 1, x0, x0 + 1, x1 - 1, x1, x1 + 1]), *rng.pick(&[y0 - 1, y0, y0 + 1, y1 - 1, y1, y1 + 1])),
+            1 => (*rng.pick(&[0i64, 1, 638, 639, 640, -1]), *rng.pick(&[0i64, 1, 348, 349, 350, -1])),
+            2 => (*rng.pick(&[x0, x1 - 1, x1]), py(rng)),
+            3 => (px(rng), *rng.pick(&[y0, y1 - 1, y1])),
+            _ => (px(rng), py(rng)),
+        };
+        let b = if rng.chance(1, 5) { rng.range(0, 255) } else { border };
+        ops.push(format!("ff,{},{},{}", sx, sy, b));
+    }
+    for _ in 0..3 {
+        ops.push(format!("gp,{},{}", px(rng), py(rng)));
+    }
+    ops.join(";")
+}
+
+/// RIP streams for the canvas model: only commands whose `run` is modelled (viewport, colours, palette, write mode,
+/// styles, pixel, line, rectangle, bar, polygon, poly-line, flood fill, erase view), with parameter lists that are
+/// exact, cut short, over-long or polluted, colour numbers at and beyond the palette size, palettes shorter than 16
+/// entries, coordinates on the edges of the canvas and of the viewport
+fn ripc_value(rng: &mut Rng, kind: u8) -> u32 {
+    // kind: b'x' / b'y' coordinate, b'c' colour, b'n' small number
+    match kind {
+        b'x' => match rng.below(8) {
+            0 => *rng.pick(&[0u32, 1, 638, 639, 640, 641, 1295]),
+            1 | 2 => rng.below(60) as u32,
+            _ => rng.below(700) as u32,
+        },
+        b'y' => match rng.below(8) {
+            0 => *rng.pick(&[0u32, 1, 348, 349, 350, 351, 1295]),
+            1 | 2 => rng.below(60) as u32,
+            _ => rng.below(400) as u32,
+        },
+        b'c' => match rng.below(6) {
+            0 => *rng.pick(&[0u32, 15, 16, 17, 63, 64, 255, 256, 1295]),
+            _ => rng.below(16) as u32,
+        },
+        _ => rng.below(20) as u32,
+    }
+}
+
+fn ripc_command(rng: &mut Rng, border: u32) -> Vec<u8> {
+    let mut v: Vec<u8> = Vec::new();
+    let xy = |rng: &mut Rng, v: &mut Vec<u8>| {
+        v.extend(b36(ripc_value(rng, b'x'), 2));
+        v.extend(b36(ripc_value(rng, b'y'), 2));
+    };
+    match rng.below(24) {
+        0 => {
+            v.push(b'v');
+            let (x0, y0) = (ripc_value(rng, b'x').min(700), ripc_value(rng, b'y').min(400));
+            v.extend(b36(x0, 2));
+            v.extend(b36(y0, 2));
+            if rng.chance(1, 5) {
+                xy(rng, &mut v);
+            } else {
+                v.extend(b36(x0 + rng.below(300) as u32, 2));
+                v.extend(b36(y0 + rng.below(200) as u32, 2));
+            }
+        }
+        1 => v.push(b'E'),
+        2 | 3 => {
+            v.push(b'c');
+            v.extend(b36(if rng.chance(1, 2) { border } else { ripc_value(rng, b'c') }, 2));
+        }
+        4 => {
+            // palette: 0..=16 entries (fewer than 16 = a palette without an entry for the higher colour numbers)
+            v.push(b'Q');
+            let n = *rng.pick(&[0u64, 1, 2, 7, 8, 15, 16, 16, 16]);
+            for _ in 0..n {
+                v.extend(b36(if rng.chance(1, 12) { 64 + rng.below(40) as u32 } else { rng.below(64) as u32 }, 2));
+            }
+        }
+        5 => {
+            v.push(b'a');
+            v.extend(b36(if rng.chance(1, 4) { rng.below(40) as u32 } else { rng.below(16) as u32 }, 2));
+            v.extend(b36(if rng.chance(1, 8) { 64 + rng.below(10) as u32 } else { rng.below(64) as u32 }, 2));
+        }
+        6 => {
+            v.push(b'W');
+            v.extend(b36(rng.below(6) as u32, 2));
+        }
+        7 => {
+            v.push(b'm');
+            xy(rng, &mut v);
+        }
+        8 | 9 => {
+            v.push(b'X');
+            xy(rng, &mut v);
+        }
+        10 | 11 => {
+            v.push(b'L');
+            xy(rng, &mut v);
+            xy(rng, &mut v);
+        }
+        12 | 13 => {
+            v.push(b'R');
+            xy(rng, &mut v);
+            xy(rng, &mut v);
+        }
+        14 => {
+            v.push(b'B');
+            xy(rng, &mut v);
+            xy(rng, &mut v);
+        }
+        15 | 16 => {
+            // polygon / poly-line: the announced count and the list carried differ in some cases
+            v.push(*rng.pick(b"Pl"));
+            let n = rng.below(6) as u32;
+            v.extend(b36(n, 2));
+            let carried = match rng.below(6) {
+                0 => n.saturating_sub(1),
+                1 => n + 1,
+                _ => n,
+            };
+            for _ in 0..carried {
+                xy(rng, &mut v);
+            }
+            if rng.chance(1, 6) {
+                v.extend(b36(ripc_value(rng, b'x'), 2));
+            }
+        }
+        17..=19 => {
+            v.push(b'F');
+            xy(rng, &mut v);
+            v.extend(b36(if rng.chance(3, 4) { border } else { ripc_value(rng, b'c') }, 2));
+        }
+        20 => {
+            v.push(b'=');
+            v.extend(b36(rng.below(6) as u32, 2));
+            v.extend(b36(rng.below(65536) as u32, 4));
+            v.extend(b36(*rng.pick(&[1u32, 1, 3, 0, 2]), 2));
+        }
+        21 | 22 => {
+            v.push(b'S');
+            v.extend(b36(if rng.chance(1, 2) { 1 } else { rng.below(14) as u32 }, 2));
+            v.extend(b36(ripc_value(rng, b'c'), 2));
+        }
+        _ => {
+            v.push(b's');
+            for _ in 0..8 {
+                v.extend(b36(rng.below(256) as u32, 2));
+            }
+            v.extend(b36(ripc_value(rng, b'c'), 2));
+        }
+    }
+    // malformed variants of the parameter list
+    match rng.below(14) {
+        0 if v.len() > 1 => {
+            let keep = 1 + rng.below(v.len() as u64 - 1) as usize;
+            v.truncate(keep);
+        }
+        1 => {
+            for _ in 0..rng.range(1, 6) {
+                v.push(*rng.pick(b"0123456789ABCDEFGHIJKLMNOPQRSTUVWXYZ"));
+            }
+        }
+        2 if v.len() > 1 => {
+            let at = 1 + rng.below(v.len() as u64 - 1) as usize;
+            v[at] = *rng.pick(b"*.,-+ az_");
+        }
+        _ => {}
+    }
+    v
+}
+
+fn ripc_stream(rng: &mut Rng) -> Vec<u8> {
+    let mut s: Vec<u8> = b"!".to_vec();
+    let border = 1 + rng.below(15) as u32;
+    let n = rng.range(2, 10);
+    for i in 0..n {
+        s.push(b'|');
+        s.extend(ripc_command(rng, border));
+        if rng.chance(1, 12) && i + 1 < n {
+            s.extend_from_slice(b"|\n!");
+        }
+    }
+    s.extend_from_slice(*rng.pick(&[&b"|\n"[..], b"\n", b"|#\n"]));
+    s
+}
+
+/// IGS streams for the canvas model: every command `execute_command` knows (text output excepted), parameter lists of
+/// every length around the declared count (-1, exact, +1, many), pen / colour / pattern / line-type numbers at and
+/// beyond their tables, poly-line and poly-fill lists around `points * 2 + 1` with the border switched on, blits with
+/// source rectangles inside and outside the screen and the saved block, resolution changes, and `&` loops
+fn igsx_coord(rng: &mut Rng, big: bool) -> i64 {
+    match rng.below(12) {
+        0 => *rng.pick(&[0i64, 1, 199, 200, 319, 320, 639, 640]),
+        1 if big => *rng.pick(&[700i64, 1000, 5000, 99999]),
+        2 | 3 => rng.range(0, 30),
+        _ => rng.range(0, 330),
+    }
+}
+
+fn igsx_exact(c: u8) -> usize {
+    match c {
+        b'I' | b'?' | b'k' | b'H' | b'q' | b't' | b'M' => 1,
+        b'C' | b'D' | b'P' | b'R' | b'F' | b'c' | b'p' => 2,
+        b'O' | b'A' | b'E' | b'T' => 3,
+        b'S' | b'L' | b'Q' | b'Z' => 4,
+        b'B' | b'U' | b'V' => 5,
+        b'J' => 6,
+        _ => 0,
+    }
+}
+
+fn igsx_command(rng: &mut Rng) -> Vec<u8> {
+    let c = *rng.pick(b"LLLDDBBBZZZUUOOQQPPFffffzzzGGGGGCCCCAAAASTTTRIsHMkq?tcpVJEbNnXgYKi");
+    let mut ps: Vec<String> = Vec::new();
+    let big = rng.chance(1, 10);
+    let num = |v: i64| v.to_string();
+    match c {
+        b'L' | b'Z' => {
+            for _ in 0..4 {
+                ps.push(num(igsx_coord(rng, big)));
+            }
+        }
+        b'D' | b'P' | b'F' | b'p' => {
+            for _ in 0..2 {
+                ps.push(num(igsx_coord(rng, big)));
+            }
+        }
+        b'B' | b'U' => {
+            for _ in 0..4 {
+                ps.push(num(igsx_coord(rng, big)));
+            }
+            ps.push(num(rng.range(0, 2)));
+        }
+        b'O' => {
+            ps.push(num(igsx_coord(rng, false)));
+            ps.push(num(igsx_coord(rng, false)));
+            ps.push(num(if big { *rng.pick(&[500i64, 900, 3000]) } else { rng.range(0, 120) }));
+        }
+        b'Q' => {
+            ps.push(num(igsx_coord(rng, false)));
+            ps.push(num(igsx_coord(rng, false)));
+            // (radii beyond a few thousand cost the model seconds: 99999 is left to the `igs:` cases, which run the real code only)
+            ps.push(num(if big { *rng.pick(&[500i64, 900, 2000]) } else { rng.range(0, 120) }));
+            ps.push(num(if big && rng.chance(1, 2) { 1500 } else { rng.range(0, 90) }));
+        }
+        b'f' | b'z' => {
+            // announced count and list carried: exact, shorter, longer (odd and even surplus)
+            let n = rng.range(0, 5);
+            ps.push(num(n));
+            let carried = match rng.below(8) {
+                0 => (2 * n - 1).max(0),
+                1 => 2 * n + 1,
+                2 => 2 * n + 2,
+                3 => 2 * n + 3,
+                4 => (2 * n - 2).max(0),
+                _ => 2 * n,
+            };
+            for _ in 0..carried {
+                ps.push(num(igsx_coord(rng, big)));
+            }
+        }
+        b'G' => {
+            let mode = rng.range(0, 4);
+            ps.push(num(mode));
+            ps.push(num(rng.range(0, 15)));
+            let n = match mode {
+                0 | 3 => 6,
+                1 => 4,
+                2 => 2,
+                _ => rng.range(0, 6),
+            };
+            for _ in 0..n {
+                ps.push(num(igsx_coord(rng, big)));
+            }
+        }
+        b'C' => {
+            ps.push(num(rng.range(0, 4)));
+            ps.push(num(*rng.pick(&[0i64, 1, 2, 3, 5, 7, 9, 14, 15, 16, 17, 40, 255])));
+        }
+        b'A' => {
+            ps.push(num(rng.range(0, 5)));
+            ps.push(num(*rng.pick(&[0i64, 1, 2, 6, 7, 12, 13, 24, 25, 99])));
+            ps.push(num(*rng.pick(&[0i64, 1, 1, 1, 2])));
+        }
+        b'S' => {
+            ps.push(num(*rng.pick(&[0i64, 1, 7, 15, 16, 99])));
+            for _ in 0..3 {
+                ps.push(num(*rng.pick(&[0i64, 1, 3, 7, 8, 255, 256, 99999])));
+            }
+        }
+        b'T' => {
+            ps.push(num(rng.range(0, 3)));
+            ps.push(num(rng.range(0, 8)));
+            ps.push(num(rng.range(0, 3)));
+        }
+        b'R' => {
+            ps.push(num(rng.range(0, 2)));
+            ps.push(num(rng.range(0, 3)));
+        }
+        b'I' => ps.push(num(rng.range(0, 4))),
+        b'q' => ps.push(num(*rng.pick(&[0i64, 5, 179, 180, 9995, 9998, 9999, 10000]))),
+        b't' => ps.push(num(rng.range(0, 2))),
+        b'c' => {
+            ps.push(num(rng.range(0, 2)));
+            ps.push(num(*rng.pick(&[0i64, 1, 8, 16, 17, 99])));
+        }
+        b'E' => {
+            ps.push(num(*rng.pick(&[0i64, 1, 2, 3, 4, 8, 16])));
+            ps.push(num(*rng.pick(&[8i64, 9, 10, 11, 16, 18, 20])));
+            ps.push(num(rng.range(0, 5)));
+        }
+        b's' | b'b' | b'N' | b'n' | b'X' | b'g' | b'Y' | b'K' | b'i' => {
+            for _ in 0..rng.range(0, 3) {
+                ps.push(num(rng.range(0, 9)));
+            }
+        }
+        _ => {
+            for _ in 0..igsx_exact(c) {
+                ps.push(num(rng.range(0, 5)));
+            }
+        }
+    }
+    // the length of the list around the declared one
+    match rng.below(12) {
+        0 if !ps.is_empty() => {
+            ps.pop();
+        }
+        1 => ps.push(num(igsx_coord(rng, false))),
+        2 => {
+            for _ in 0..rng.range(2, 9) {
+                ps.push(num(rng.range(0, 99)));
+            }
+        }
+        3 if !ps.is_empty() => {
+            let k = rng.below(ps.len() as u64) as usize;
+            ps[k] = String::new();
+        }
+        _ => {}
+    }
+    let mut v = vec![c];
+    if rng.chance(3, 4) {
+        v.push(b'>');
+    }
+    v.extend(ps.join(",").bytes());
+    v.push(b':');
+    v
+}
+
+fn igsx_loop(rng: &mut Rng) -> Vec<u8> {
+    let from = *rng.pick(&[0i64, 1, 5, 10, 100]);
+    let to = *rng.pick(&[0i64, 3, 10, 20, 100]);
+    let step = *rng.pick(&[1i64, 1, 2, 3, 50]);
+    let (lc, groups): (u8, Vec<&str>) = match rng.below(6) {
+        0 => (b'L', vec!["0,0,x,y"]),
+        1 => (b'L', vec!["x,y,+10,-5", "!3,y,100,199"]),
+        2 => (b'B', vec!["x,y,+20,+20,1"]),
+        3 => (b'O', vec!["100,100,x"]),
+        4 => (b'P', vec!["x,y"]),
+        _ => (b'Z', vec!["-50,x,+3,y", "x,x,y,y"]),
+    };
+    let cnt: usize = groups.iter().map(|g| g.split(',').count()).sum();
+    format!("&>{},{},{},0,{},{},{}:", from, to, step, lc as char, cnt, groups.join(":")).into_bytes()
+}
+
+fn igsx_stream(rng: &mut Rng) -> Vec<u8> {
+    let mut s: Vec<u8> = b"G#".to_vec();
+    // a state-setting head in most streams: colours, fill attributes with the border on, line type, resolution
+    if rng.chance(3, 4) {
+        let heads: [&[u8]; 12] = [b"C>1,3:", b"C>2,5:", b"C>2,0:", b"C>1,15:", b"A>1,1,1:", b"A>2,9,1:", b"A>3,8,0:", b"A>2,0,1:", b"T>2,3,1:", b"T>2,7,1:", b"R>1,0:", b"T>1,5,2:"];
+        for _ in 0..rng.range(1, 4) {
+            s.extend_from_slice(*rng.pick(&heads[..]));
+        }
+    }
+    let n = rng.range(1, 8);
+    for i in 0..n {
+        if rng.chance(1, 12) {
+            s.extend(igsx_loop(rng));
+        } else {
+            s.extend(igsx_command(rng));
+        }
+        if rng.chance(1, 10) && i + 1 < n {
+            s.extend_from_slice(b"\r\nG#");
+        }
+    }
+    s
+}
+
 // ------------------------------------------------------------------------------------------------ entry
 pub fn run(run: &mut Run, seed: u64, thorough: bool, replay: Option<&str>, corpus: &[String]) {
     if let Ok(w) = std::env::var("C20_WORKER") {
@@ -1500,11 +2108,71 @@ pub fn run(run: &mut Run, seed: u64, thorough: bool, replay: Option<&str>, corpu
     for _ in 0..n_bgi {
         cases.push(format!("bgi:{}", bgi_ops(&mut rng)));
     }
+    // flood-fill scenes (fixed ones first: ring-shaped region, moved viewport, viewport beyond the window, seeds on the edges)
+    for fixed in [
+        "fc,14;co,15;rc,10,10,20,20;ff,1,1,15;gp,1,1;gp,15,15;gp,10,10",
+        "fc,14;co,15;rc,10,10,20,20;ff,15,15,15;ff,15,15,15;gp,15,15;gp,0,0",
+        "vp,10,10,30,30;fc,14;ff,20,20,15;gp,20,20;ff,30,30,1;ff,29,29,1;ff,10,10,1",
+        "vp,0,0,1295,1295;fc,3;ff,0,349,7;ff,639,349,7;ff,640,349,7;ff,0,350,7",
+        "vp,100,50,300,200;fc,5;fs,9;bk,2;co,9;ln,0,0,639,349;ln,0,349,639,0;ff,250,60,9;ff,110,100,9",
+        "ff,0,350,7;ff,640,0,7;ff,-1,0,7;ff,0,-1,7;fc,2;ff,639,349,7;gp,639,349",
+        "vp,5,5,3,3;fc,2;ff,4,4,7;vp,0,0,0,0;ff,0,0,7;vp,640,350,700,400;ff,640,350,7",
+        "fc,0;co,9;rc,5,5,60,40;ff,1,1,9;fc,9;ff,1,1,3;fc,4;ff,30,20,9;gp,30,20;gp,1,1",
+        "co,3;pp,0,7,3;pp,1,7,3;pp,639,9,3;pp,638,9,3;fc,6;ff,0,8,3;ff,639,8,3;gp,0,7;gp,639,9",
+    ] {
+        cases.push(format!("bgi:{}", fixed));
+    }
+    let n_fill = if thorough { 4000 } else { 250 };
+    for _ in 0..n_fill {
+        cases.push(format!("bgi:{}", bgi_fill_scene(&mut rng)));
+    }
+    // 4. RIP streams against the canvas model (fixed ones first: short palettes under a drawing, ring-shaped fill regions,
+    // fills in moved / oversize viewports, polygon lists longer and shorter than announced)
+    for st in [
+        "!|Q0102|L00000A0A|\n",
+        "!|Q|c0F|X0505|\n",
+        "!|a0Z3F|c0F|X0505|W01|X0505|X0606|\n",
+        "!|S010E|c0F|R0A0A1414|F01010F|\n",
+        "!|S010E|c0F|R0A0A1414|F0F0F0F|F0F0F0F|\n",
+        "!|v0A0A1E1E|S0C07|B00005050|a0Z3F|W01|P03050509091010|X0B0B|l0201010505|=04AAAA03|L00003030|s0102030405060708FF|E|\n",
+        "!|v0000ZZZZ|S0103|F009P07|F00HR07|\n",
+        "!|v0A0A1E1E|S0105|c09|R0C0C1A1A|F0K0K09|F0A0A09|F1E1E09|F1D1D09|\n",
+        "!|P0201010505|P02010105050909|P020101|P00|l01|l0301010505|\n",
+        "!|c09|L000000HR|S0209|F0101ZZ|Q010203|\n",
+    ] {
+        cases.push(format!("ripc:.{}", hex(st.as_bytes())));
+    }
+    let n_ripc = if thorough { 6000 } else { 250 };
+    for _ in 0..n_ripc {
+        cases.push(format!("ripc:.{}", hex(&ripc_stream(&mut rng))));
+    }
+    run.extra.push(("rip_canvas_streams".into(), n_ripc.to_string()));
+    // 5. IGS streams against the DrawExecutor model (fixed ones first)
+    for st in [
+        "G#A>1,1,1:f>1,5,5,7:",
+        "G#A>1,1,1:f>1,5,5,7,7:z>1,5,5,7:z>2,5,5,7,7:f>2,1,1,9,9:",
+        "G#C>2,5:A>1,1,1:B>10,10,50,50,0:f>3,5,5,100,20,50,80:",
+        "G#C>1,3:O>100,100,30:Q>200,100,50,20:A>2,5,1:C>2,7:U>20,20,200,150,1:U>30,30,100,100,0:",
+        "G#T>1,5,1:C>1,4:P>50,50:T>1,3,1:P>100,100:T>2,3,1:z>3,1,1,50,5,90,90:D>5,5:T>2,7,1:L>0,0,50,50:",
+        "G#C>2,3:F>10,10:G>1,3,0,0,30,30:G>2,3,100,100:G>0,3,5,5,40,40,200,100:G>3,3,2,2,20,20,150,150:G>3,,,,1,1,,:",
+        "G#R>1,2:C>2,9:Z>600,10,700,300:I>3:S>3,7,0,7:k>1:R>0,1:Z>0,0,99999,99999:",
+        "G#C>2,40:C>2,16:C>2,15:S>16,1,1,1:S>15,7,7,7:O>1,,900:f>3,10900,,,,,99000:",
+        "G#&>0,50,5,0,L,4,0,0,x,y:C>1,2:&>10,100,10,0,O,3,x,y,+5:q>5:t>1:?>0:q>9995:G>1,3,0,0,9,9:",
+        "G#A>1,1,1:O>100,100,9999:Q>100,100,5000,9999:V>1,2,3,4,5:J>1,2,3,4,5,6:",
+    ] {
+        cases.push(format!("igsx:.{}", hex(st.as_bytes())));
+    }
+    let n_igsx = if thorough { 8000 } else { 300 };
+    for _ in 0..n_igsx {
+        cases.push(format!("igsx:.{}", hex(&igsx_stream(&mut rng))));
+    }
+    run.extra.push(("igs_canvas_streams".into(), n_igsx.to_string()));
     run.extra.push(("exhaustive_01Z_max_len".into(), max_len.to_string()));
     run.extra.push(("exhaustive_01Z_cases".into(), n_exh.to_string()));
     run.extra.push(("sampled_01Z_lengths".into(), format!("{}..={} ({} cases: constant strings{} + {} random per length and command)", max_len + 1, long_max, n_long, if thorough { ", single-position variations (RIP)" } else { "" }, samples)));
     run.extra.push(("random_streams_each".into(), n_rand.to_string()));
     run.extra.push(("bgi_sequences".into(), n_bgi.to_string()));
+    run.extra.push(("bgi_flood_fill_scenes".into(), n_fill.to_string()));
     run.extra.push(("limits".into(), format!("slow char > {} ms, worker watchdog {} s, igs loop drain {} steps/char", SLOW_CHAR_MS, hang_secs(), IGS_DRAIN)));
     if let Ok(only) = std::env::var("C20_ONLY") {
         // debugging aid: restrict the case list to one kind
